@@ -8,7 +8,7 @@ Spec (plain JSON):
   EVENT  = {"src": "A0"|"A1"|"B", "to": int, "how": "call"|"fire"|"client"|"server"|"server_nores",
             "name", "args", "kwargs", "channels": [..] | null, "flags": [success, failure, notify], "meta": {attr: json},
             "kind": "plain"|"slow"|"none"|"raise", "slow": n, "tamper_call": {key: v}, "tamper_value": {key: v}}
-  FORGED = {"victim": "B"|"A0", "when": "before"|"after", "raw": latin-1 text of the packet (trailing '~' stripped, delimiter appended)}
+  FORGED = {"victim": "B"|"A0", "when": "before"|"after", "chase": bool (a benign call follows in the same stream), "raw": latin-1 text of the packet (trailing '~' stripped, delimiter appended)}
 The uid of an event is UID0+100*wave+index and travels as first positional argument.
 """
 import json
@@ -165,7 +165,7 @@ def _forged_raw():
 
 def _forged():
     return st.fixed_dictionaries({'victim': st.sampled_from(['B', 'B', 'A0']), 'when': st.sampled_from(['before', 'after']),
-                                  'raw': _forged_raw()})
+                                  'raw': _forged_raw(), 'chase': st.booleans()})
 
 
 def _spec(tier):
@@ -212,6 +212,10 @@ def _args(sc, uid):
     return out
 
 
+class _SerialiserError(Exception):
+    pass
+
+
 def _mk(name, args, kwargs):
     """An event class of that name, as ``class ping(Event)`` would define it (Event.create cannot take every keyword)."""
     return type(name, (Event,), {})(*args, **kwargs)
@@ -236,7 +240,7 @@ class C19(Prop):
                    'hostile packets are delimiter-terminated; an unterminated hostile packet legitimately garbles what follows on that connection',
                    'result order of several coroutine handlers of one event is not asserted',
                    'Manager._tasks of the simulated processes is an insertion-ordered double of the set (determinism of replays)')
-    budget = {'quick': (800, 4), 'thorough': (5000, 16)}
+    budget = {'quick': (600, 4), 'thorough': (5000, 16)}
 
     def setup(self):
         driver.quiet_process()
@@ -246,6 +250,9 @@ class C19(Prop):
         import gc
         gc.collect()
         gc.freeze()
+        # same limit in every context (the runner raises it in its shard workers only): deeply nested hostile JSON must
+        # take the same path (ValueError, not RecursionError) in a shard, in the enumeration pool and under --replay
+        sys.setrecursionlimit(10000)
 
     def strategy(self, tier):
         return _spec(tier)
@@ -408,6 +415,8 @@ class C19(Prop):
         rig = H.Rig(clients, spec['fw'], scripts, hostile_server=hostile_b, hostile_client=hostile_a)
         try:
             return self._drive(spec, rig, scripts, forged, hostile_b, hostile_a)
+        except _SerialiserError as exc:
+            return Result(False, 'serialisation-roundtrip', str(exc))
         finally:
             rig.close()
 
@@ -417,10 +426,32 @@ class C19(Prop):
         fired = {}
         complete = True
 
+        follow = []   # (link label, victim, uid, call id, kind of follow-up)
+
+        def benign(label, proc, kind):
+            """A well-formed call from the hostile peer: must be served like any other remote event."""
+            n = len(follow)
+            uid, cid = UID0 + 9000 + n, FOLLOW_ID + n
+            # the firewalls deny at most two of the three names
+            nm = [x for x in NAMES if x not in spec['fw'].get(proc, {}).get('recv', ())][0]
+            e = Event.create(nm, uid, 'after-hostile')
+            e.channels = ('c0',)
+            scripts[uid] = {'kind': 'plain', 'meta': {}, 'tamper_call': {}}
+            try:
+                pkt = dump_event(e, cid).encode('utf-8')
+            except Exception as exc:  # noqa - the serialiser is code under test
+                raise _SerialiserError('dump_event(%s(%d, "after-hostile")) raised %s: %s' % (nm, uid, type(exc).__name__, str(exc)[:120]))
+            follow.append((label, proc, uid, cid, kind))
+            return pkt + H.DELIM
+
         def inject(f):
             # a trailing '~' would merge with the delimiter and leave the packet unterminated (see assumptions)
             raw = f['raw'].encode('latin-1').rstrip(b'~') + H.DELIM
-            rig.inject('H>B' if f['victim'] == 'B' else 'H>A0', raw)
+            label, proc = ('H>B', 'B') if f['victim'] == 'B' else ('H>A0', 'A0')
+            if f.get('chase'):
+                # directly behind the hostile packet: both may arrive in one read
+                raw += benign(label, proc, 'same-read')
+            rig.inject(label, raw)
 
         for wi, w in enumerate(spec['waves']):
             for f in w['forged']:
@@ -456,21 +487,12 @@ class C19(Prop):
                 complete = rig.pump(sizes, burst) and complete
 
         # benign follow-up on the hostile connections (a later, separate read)
-        follow = []
-        for label, proc, uid in (('H>B', 'B', UID0 + 9001), ('H>A0', 'A0', UID0 + 9002)):
+        late = False
+        for label, proc in (('H>B', 'B'), ('H>A0', 'A0')):
             if label in rig.links:
-                # the firewalls deny at most two of the three names
-                nm = [n for n in NAMES if n not in spec['fw'].get(proc, {}).get('recv', ())][0]
-                e = Event.create(nm, uid, 'after-hostile')
-                e.channels = ('c0',)
-                scripts[uid] = {'kind': 'plain', 'meta': {}, 'tamper_call': {}}
-                try:
-                    pkt = dump_event(e, FOLLOW_ID).encode('utf-8')
-                except Exception as exc:  # noqa - the serialiser is code under test
-                    return Result(False, 'serialisation-roundtrip', 'dump_event(%s(%d, "after-hostile")) raised %s: %s' % (nm, uid, type(exc).__name__, str(exc)[:120]))
-                rig.inject(label, pkt + H.DELIM)
-                follow.append((label, proc, uid))
-        if follow:
+                rig.inject(label, benign(label, proc, 'later-read'))
+                late = True
+        if late:
             complete = rig.pump([4096], 0) and complete
 
         for uid, v in fired.items():
@@ -589,13 +611,15 @@ class C19(Prop):
                     if k in PROTECTED and any(same(v, d) for d in DISTINCT) and same(getattr(ev, k, ABSENT), v):
                         return bad('attribute-overwritten', 'peer metadata of the answer set %s=%r on the sender\'s event %d' % (k, v, uid))
         # ---- benign follow-up after hostile traffic
-        for label, proc, uid in follow:
+        for label, proc, uid, cid, kind in follow:
             got = inv.get(uid, [])
             if len(got) != 1:
-                return bad('after-hostile', 'benign event sent after the hostile packets on %s ran %d times on %s' % (label, len(got), proc))
-            back = [pkt for lab, pkt, _ in rig.wire if lab == '%s>H' % proc and pkt and pkt.get('id') == FOLLOW_ID and 'value' in pkt]
+                return bad('after-hostile', 'benign event sent behind the hostile packets on %s (%s) ran %d times on %s' % (label, kind, len(got), proc))
+            back = [pkt for lab, pkt, _ in rig.wire if lab == '%s>H' % proc and pkt and pkt.get('id') == cid and 'value' in pkt]
             if len(back) != 1 or not same(back[0]['value'], {'r': uid, 't': 't0', 'a': ['after-hostile'], 'k': {}}):
-                return bad('after-hostile', 'benign event after hostile packets on %s: %d answers %s' % (label, len(back), _short(back[:1])))
+                return bad('after-hostile', 'benign event behind hostile packets on %s (%s): %d answers %s' % (label, kind, len(back), _short(back[:1])))
+            if kind == 'same-read':
+                classes.add('chased-forged')
 
         # ---------------- classes / non-trivial
         cut_inside = sum(l.cut_inside for l in rig.links.values())
